@@ -88,7 +88,20 @@ func VerifAdvs(s vw.BGPSession, perm []int) []*bgp.Advertisement {
 // VerifRender drives the real session manager: NewSession in the given order, Set with the
 // given permutation of each advertisement list, optionally closing and re-creating sessions,
 // and returns the text templateConfig produces for the final state.
+// VerifRejected is a Set call that must be refused and leave the session as it was: the advertisements Advs
+// followed by an invalid element (Kind 0: an advertisement with 64 communities; Kind 1: the same prefix twice with
+// different local preferences, refused when the configuration is assembled).
+type VerifRejected struct {
+	Session int         `json:"session"`
+	Kind    int         `json:"kind"`
+	Advs    []vw.BGPAdv `json:"advs"`
+}
+
 func VerifRender(sessions []vw.BGPSession, order []int, advPerm [][]int, churn []int, prior ...[][]vw.BGPAdv) (string, error) {
+	return VerifRenderR(sessions, order, advPerm, churn, nil, prior...)
+}
+
+func VerifRenderR(sessions []vw.BGPSession, order []int, advPerm [][]int, churn []int, rejected []VerifRejected, prior ...[][]vw.BGPAdv) (string, error) {
 	osHostname = func() (string, error) { return "verif-host", nil }
 	sm := &sessionManager{sessions: map[string]*session{}, bfdProfiles: []BFDProfile{}, reloadConfig: make(chan reloadEvent, 4096), logLevel: "informational"}
 	drain := func() {
@@ -143,6 +156,33 @@ func VerifRender(sessions []vw.BGPSession, order []int, advPerm [][]int, churn [
 			return "", fmt.Errorf("Set %s: %w", sessions[i].Name, err)
 		}
 	}
+	// refused Set calls: the session must keep what it had
+	for _, r := range rejected {
+		i := r.Session % len(sessions)
+		tmp := sessions[i]
+		tmp.Advs = r.Advs
+		advs := VerifAdvs(tmp, nil)
+		bad := &bgp.Advertisement{Prefix: mustNet("10.99.0.1/32")}
+		if r.Kind == 0 {
+			for k := 0; k < 64; k++ {
+				c, _ := community.New(fmt.Sprintf("65000:%d", k+1))
+				bad.Communities = append(bad.Communities, c)
+			}
+			advs = append(advs, bad)
+		} else {
+			bad.LocalPref = 100
+			bad2 := &bgp.Advertisement{Prefix: mustNet("10.99.0.1/32"), LocalPref: 200}
+			advs = append(advs, bad, bad2)
+		}
+		err := handles[i].Set(advs...)
+		drain()
+		if err == nil {
+			// accepted after all (then it is simply an earlier request): the final request follows
+			if err := set(i); err != nil {
+				return "", err
+			}
+		}
+	}
 	// churn: close and re-create some sessions (history must not matter)
 	for _, c := range churn {
 		i := c % len(sessions)
@@ -165,6 +205,14 @@ func VerifRender(sessions []vw.BGPSession, order []int, advPerm [][]int, churn [
 		return "", err
 	}
 	return templateConfig(cfg)
+}
+
+func mustNet(s string) *net.IPNet {
+	_, n, err := net.ParseCIDR(s)
+	if err != nil {
+		panic(err)
+	}
+	return n
 }
 
 // ---------------------------------------------------------------- interpreter
